@@ -151,6 +151,10 @@ def step (st : State) (ws : List String) : State × String :=
       ({ s := s' }, (if o == .ok then "ok " else "err ") ++ snapshot s')
     | _, _ => (st, "bad-op")
   | ["restart"] => let s' := restart s; ({ s := s' }, snapshot s')
+  | ["restartcfg", m] =>
+    match sigModeOf? m with
+    | some sm => let s' := reconfigure s sm; ({ s := s' }, snapshot s')
+    | none => (st, "bad-op")
   | ["close"] => let s' := close s; ({ s := s' }, snapshot s')
   | _ => (st, "bad-op")
 
